@@ -159,7 +159,11 @@ class FakeSnowflakeCursor:
             # half-done by other connections. Inside a transaction of the user it is the user who commits or rolls back.
             multi_step = (
                 len(exploded) > 1
-                or bool(transformed.args.get("table_comment") or transformed.args.get("text_lengths"))
+                or bool(
+                    transformed.args.get("table_comment")
+                    or transformed.args.get("text_lengths")
+                    or transformed.args.get("clone_source")
+                )
                 or (
                     isinstance(transformed, sqlglot.exp.Alter)
                     and any(
@@ -454,6 +458,21 @@ class FakeSnowflakeCursor:
         ):
             # a new table doesn't inherit the comment and text lengths of an earlier table with the same name
             self._duck_conn.execute(info_schema.delete_table_metadata_sql(catalog, schema, created.name))
+
+        if (
+            (clone_source := transformed.args.get("clone_source"))
+            and (cloned := transformed.find(exp.Table))
+            and (catalog := cloned.catalog or self._conn.database)
+            and (schema := cloned.db or self._conn.schema)
+            and (source_catalog := clone_source.catalog or self._conn.database)
+            and (source_schema := clone_source.db or self._conn.schema)
+        ):
+            # a clone has the text lengths of its source
+            self._duck_conn.execute(
+                info_schema.copy_text_lengths_sql(
+                    catalog, schema, cloned.name, source_catalog, source_schema, clone_source.name
+                )
+            )
 
         if table_comment := cast(tuple[exp.Table, str], transformed.args.get("table_comment")):
             # record table comment
